@@ -420,3 +420,36 @@ pub fn c17_owned_reserve_items_vec_form() {
     cover!(true, "end reached");
     sym::forget((t, u));
 }
+
+// @h prop=C17 tier=quick kind=proof inst="Vec<u8> as region under OptionRegion and ResultRegion: reserve_items through the wrappers' filtering iterators (no useful size hint)" bounds="OptionRegion<Vec<u8>>: Some, None, Some, Some; ResultRegion<Vec<u8>, Vec<u8>>: Ok, Err, Ok, Ok, Err (symbolic elements); empty and populated targets" desc="capacities constant while exactly the announced items are pushed: the announced items are counted, not estimated from a size hint"
+#[cfg_attr(kani, kani::proof, kani::unwind(10))]
+pub fn c17_reserve_items_vec_under_wrappers() {
+    let e = sym::bytes::<5>();
+    type O = OptionRegion<Vec<u8>>;
+    let items = [Some(e[0]), None, Some(e[1]), Some(e[2])];
+    let mut t = O::default();
+    t.reserve_items(items.iter());
+    let before = caps(&t);
+    for v in items.iter() {
+        let _ = t.push(v);
+        assert!(same_caps(before, caps(&t)), "C17: CAPACITY-CHANGED while pushing exactly the items announced to an OptionRegion over a vector");
+    }
+    // populated target: announce the same items again
+    t.reserve_items(items.iter());
+    let before = caps(&t);
+    for v in items.iter() {
+        let _ = t.push(v);
+        assert!(same_caps(before, caps(&t)), "C17: CAPACITY-CHANGED while pushing exactly the items announced to a populated OptionRegion over a vector");
+    }
+    type R = ResultRegion<Vec<u8>, Vec<u8>>;
+    let items: [Result<u8, u8>; 5] = [Ok(e[0]), Err(e[1]), Ok(e[2]), Ok(e[3]), Err(e[4])];
+    let mut r = R::default();
+    r.reserve_items(items.iter());
+    let before = caps(&r);
+    for v in items.iter() {
+        let _ = r.push(v);
+        assert!(same_caps(before, caps(&r)), "C17: CAPACITY-CHANGED while pushing exactly the items announced to a ResultRegion over vectors");
+    }
+    cover!(true, "end reached");
+    sym::forget((t, r));
+}
